@@ -4688,7 +4688,9 @@ def add_segments(part, force_new=False):
                             # add the beginning to the jump destinations
                             numbers = boundaries[current_volta_end][
                                 "volta_start"
-                            ].number.split(",")
+                            ].number
+                            # importers store the number as text ("1, 2") or as an int
+                            numbers = str(numbers).split(",")
                             numbers = [str(int(n)) for n in numbers]
                             current_volta_total_number += len(numbers)
                             for no in numbers:
